@@ -28,15 +28,16 @@ type PlanCase struct {
 
 // Realised is a plan case on real bytes.
 type Realised struct {
-	Tree    *Tree             // the log the tree head commits to
-	Size    int64             // the size of the tree head
-	Over    map[string][]byte // object path -> (uncompressed) content served in its place
-	GzRaw   map[string][]byte // gzip+file:// only: the file's raw bytes (a damaged gzip stream)
-	SCT     []byte
-	Changed bool     // what is served differs from the pristine rendering
-	Targets []string // paths of the tampered objects
-	Detail  string   // how the abstract tampering was realised
-	Actual  string   // the tampering actually realised when it differs from the plan's (e.g. no sibling tile exists)
+	Tree       *Tree             // the log the tree head commits to
+	Size       int64             // the size of the tree head
+	WarmFailed string            // httpcache: the untampered scan that fills the cache did not complete
+	Over       map[string][]byte // object path -> (uncompressed) content served in its place
+	GzRaw      map[string][]byte // gzip+file:// only: the file's raw bytes (a damaged gzip stream)
+	SCT        []byte
+	Changed    bool     // what is served differs from the pristine rendering
+	Targets    []string // paths of the tampered objects
+	Detail     string   // how the abstract tampering was realised
+	Actual     string   // the tampering actually realised when it differs from the plan's (e.g. no sibling tile exists)
 }
 
 func flipBit(b []byte, r *prng, lo, hi int) (int, int) {
